@@ -87,7 +87,7 @@ func VP_C13_save_heightmaps() {
 func VP_C13_wire_roundtrip() {
 	src := EmptyChunk(1)
 	probes := []int{0, 4095, 1, 17}
-	np := 2 + 2*vp.Tier()         // positions written (quick: the first and the last)
+	np := 2 + vp.Tier()           // positions written (quick: the first and the last; thorough: one more)
 	k := vp.Choice(2 + vp.Tier()) // quick: 0 or 1 SetBlock (each upgrade copies 4096 entries)
 	for n := 0; n < k; n++ {
 		src.Sections[0].SetBlock(probes[vp.Choice(np)], vpRegState())
@@ -98,7 +98,7 @@ func VP_C13_wire_roundtrip() {
 	// arbitrary height-map contents (5 bits per value for one section)
 	hm := vp.Int()
 	vp.Assume(hm >= 0 && hm < 32)
-	hi := []int{255, 0, 11}[vp.Choice(1+2*vp.Tier())]
+	hi := []int{255, 0, 11}[vp.Choice(1+vp.Tier())]
 	src.HeightMaps.MotionBlocking.Set(hi, hm)
 	src.HeightMaps.WorldSurface.Set(hi, hm)
 	if vp.Choice(2) == 1 {
